@@ -20,3 +20,9 @@ import FemtoVerif.Props.C16
 import FemtoVerif.Props.C17
 import FemtoVerif.Props.C18
 import FemtoVerif.Props.C19
+-- generated tie theorems (translator, DESIGN 3.1); regenerated from /repo on every run
+import FemtoVerif.Gen.TieC02
+import FemtoVerif.Gen.TieC04
+import FemtoVerif.Gen.TieC05
+import FemtoVerif.Gen.TieC06
+import FemtoVerif.Gen.TieC13
